@@ -89,6 +89,7 @@ class Recorder:
             self.ids[id(ont)] = 1
         self.next = 10
         self.events = []
+        self.cevents = []   # the same steps in the content view (C14): Mix / Infer instead of Write
         self.saved = {}
         self.raised = False
         self.in_validation = False
@@ -99,11 +100,13 @@ class Recorder:
             self.next += 1
         return self.ids[id(obj)]
 
-    def effect(self, ev):
+    def effect(self, ev, content=None):
         k = len(self.events)
         self.events.extend(ev)
+        self.cevents.extend(content if content is not None else ev)
         if self.fault is not None and k == self.fault:
             self.events.append('Raised "RuntimeError"')
+            self.cevents.append('Raised "RuntimeError"')
             self.raised = True
             raise RuntimeError("injected fault at effect %d" % k)
 
@@ -121,7 +124,7 @@ class Recorder:
         def w_inoculate(orig):
             def f(to_graph, ont, *a, **k):
                 r = orig(to_graph, ont, *a, **k)
-                rec.effect(["Write %d" % rec.oid(r)])
+                rec.effect(["Write %d" % rec.oid(r)], ["Mix %d" % rec.oid(r)])
                 return r
             return f
 
@@ -129,9 +132,10 @@ class Recorder:
             def f(base, ont, target=None, *a, **k):
                 r = orig(base, ont, target, *a, **k)
                 if target is None:
-                    rec.effect(["Clone %d %d" % (rec.oid(base), rec.oid(r)), "Write %d" % rec.oid(r)])
+                    rec.effect(["Clone %d %d" % (rec.oid(base), rec.oid(r)), "Write %d" % rec.oid(r)],
+                               ["Clone %d %d" % (rec.oid(base), rec.oid(r)), "Mix %d" % rec.oid(r)])
                 else:
-                    rec.effect(["Write %d" % rec.oid(r)])
+                    rec.effect(["Write %d" % rec.oid(r)], ["Mix %d" % rec.oid(r)])
                 return r
             return f
 
@@ -153,13 +157,14 @@ class Recorder:
             def f(*a, **k):
                 r = orig(*a, **k)
                 rec.events.append("Reg false")
+                rec.cevents.append("Reg false")
                 return r
             return f
 
         def w_preinf(orig):
             def f(g, *a, **k):
                 r = orig(g, *a, **k)
-                rec.effect(["Write %d" % rec.oid(g)])
+                rec.effect(["Write %d" % rec.oid(g)], ["Infer %d" % rec.oid(g)])
                 return r
             return f
 
@@ -223,6 +228,8 @@ def real_trace(api, v, fault):
             out = type(e).__name__
             if not rec.raised:
                 rec.events.append('Raised "%s"' % type(e).__name__)
+                rec.cevents.append('Raised "%s"' % type(e).__name__)
+    real_trace.last_content = rec.cevents
     return rec.events, out
 
 
